@@ -165,6 +165,7 @@ var c13goTable = map[string]c13goSpec{
 	"kgo.assignRevokeSession.revoke: go func#0":                                     {"callback", []string{"recv:s.assignDone"}, "assignDone is closed by the assign goroutine's defer"},
 	"kgo.broker.do: go kgo.broker.handleReqs#0":                                     {"worker", nil, "C30 ring worker"},
 	"kgo.broker.loadConnection: go kgo.brokerCxn.die#0":                             {"bounded", nil, "die is idempotent and non-blocking apart from hooks"},
+	"kgo.brokerCxn.init: go kgo.brokerCxn.discard#0":                                {"loop", []string{"recv:readDone"}, "acks=0 discard reader of one produce connection (loop table: kgo.brokerCxn.discard#for[]0 exits on cl.ctx / connection death)"},
 	"kgo.brokerCxn.discard: go func#0":                                              {"bounded", nil, "one read; the read deadline is set to now on cl.ctx"},
 	"kgo.brokerCxn.readConn: go func#0":                                             {"bounded", nil, "one read; the read deadline is set to now on cl.ctx / ctx"},
 	"kgo.brokerCxn.waitResp: go kgo.brokerCxn.handleResps#0":                        {"worker", nil, "C30 ring worker"},
